@@ -70,7 +70,7 @@ fn dce_block_with_live(
                                 live.insert(u.clone());
                             }
                             // Keep side effects before the declaration in final order
-                            out.push(ast::Stmt::Expr(v));
+                            out.push(effect_stmt(v));
                         }
                         // Keep declaration without initializer
                         out.push(ast::Stmt::VarDecl {
@@ -95,7 +95,7 @@ fn dce_block_with_live(
                         for u in &used_rhs {
                             live.insert(u.clone());
                         }
-                        out.push(ast::Stmt::Expr(v));
+                        out.push(effect_stmt(v));
                     }
                 }
             }
@@ -116,7 +116,7 @@ fn dce_block_with_live(
                         for u in &used_rhs {
                             live.insert(u.clone());
                         }
-                        out.push(ast::Stmt::Expr(value));
+                        out.push(effect_stmt(value));
                     }
                 }
             }
@@ -593,6 +593,44 @@ fn free_vars_in_block(b: &ast::Block) -> HashSet<String> {
     &used - &declared
 }
 
+fn is_go_expression_statement(e: &ast::Expr) -> bool {
+    match e {
+        ast::Expr::Call { func, .. } => !matches!(
+            func.as_ref(),
+            ast::Expr::Var { name, .. }
+                if matches!(
+                    name.as_str(),
+                    "append"
+                        | "len"
+                        | "cap"
+                        | "string"
+                        | "int8"
+                        | "int16"
+                        | "int32"
+                        | "int64"
+                        | "uint8"
+                        | "uint16"
+                        | "uint32"
+                        | "uint64"
+                        | "float32"
+                        | "float64"
+                )
+        ),
+        _ => false,
+    }
+}
+
+fn effect_stmt(value: ast::Expr) -> ast::Stmt {
+    if is_go_expression_statement(&value) {
+        ast::Stmt::Expr(value)
+    } else {
+        ast::Stmt::Assignment {
+            name: "_".to_string(),
+            value,
+        }
+    }
+}
+
 fn expr_has_side_effects(e: &ast::Expr) -> bool {
     match e {
         ast::Expr::Call { .. } => true,
@@ -605,12 +643,12 @@ fn expr_has_side_effects(e: &ast::Expr) -> bool {
                     .unwrap_or(false)
         }
         ast::Expr::FieldAccess { obj, .. } => expr_has_side_effects(obj),
-        ast::Expr::Index { array, index, .. } => {
-            expr_has_side_effects(array) || expr_has_side_effects(index)
-        }
+        ast::Expr::Index { .. } => true,
         ast::Expr::UnaryOp { expr, .. } => expr_has_side_effects(expr),
-        ast::Expr::BinaryOp { lhs, rhs, .. } => {
-            expr_has_side_effects(lhs) || expr_has_side_effects(rhs)
+        ast::Expr::BinaryOp { op, lhs, rhs, .. } => {
+            matches!(op, ast::GoBinaryOp::Div)
+                || expr_has_side_effects(lhs)
+                || expr_has_side_effects(rhs)
         }
         ast::Expr::Cast { expr, .. } => expr_has_side_effects(expr),
         ast::Expr::StructLiteral { fields, .. } => {
